@@ -9,6 +9,7 @@ import numpy as np
 from numba import njit
 
 from outrank.algorithms.feature_ranking import ranking_mi_numba
+from outrank.algorithms import importance_estimator
 
 from sim.alloc import alloc
 from sim.engines import register
@@ -69,6 +70,16 @@ def run_case(case, churn_seed, reps):
             out['alt_bits'] = bits(call(Y2, X, r, corr))
     if case.get('want_full'):
         out['full_bits'] = bits(call(Y, X, 1.0, corr))
+    # the same question asked through the pipeline's plumbing (heuristic name -> correction flag, ratio forwarded):
+    # one process serves cases with different ratios, as a long-lived interpreter or a pool worker may
+    try:
+        name = 'MI-numba-randomized' if corr else 'MI-numba-3mr'
+        out['mi_bits'] = bits(importance_estimator.numba_mi(Y.reshape(-1, 1), X, name, r))
+    except TypeError as e:
+        if e.__traceback__.tb_next is None:
+            out['mi_unavailable'] = str(e)
+        else:
+            raise
     return out
 
 
